@@ -63,6 +63,9 @@ def run(chk, repo):
     par = [a.arg for a in mc.args.args]
     chk.require(par == ["start", "modulo", "step"], "modulo_counter signature changed: %s" % par)
     body = docstring_free(mc.body)
+    mdef = [unparse(d) for d in mc.args.defaults]
+    chk.decide(mdef == ["0.0", "256.0", "1.0"], "C19.modulo", W("modulo_counter"), "defaults (start, modulo, step) = %s" % mdef,
+               why="documented defaults 0., 256., 1.", node=mc)
     nleaves = 0
     canon_bodies = {}
     for conds, loop, ctx in loop_leaves(body):
@@ -81,6 +84,28 @@ def run(chk, repo):
                 roles[s] = t
             if not set(srcs) <= set(par):
                 raise AnalysisError("modulo_counter: loop over %s is not over its parameters" % srcs)
+        if isinstance(loop, ast.While):
+            chk.decide(isinstance(loop.test, ast.Constant) and bool(loop.test.value) is True and not loop.orelse, "C19.modulo",
+                       W("modulo_counter"), "leaf [%s]: while %s" % (ctxt[:80], unparse(loop.test)),
+                       why="a counter over numbers only is endless", node=loop)
+        # the leaf reached for an iterable argument iterates it; the leaf reached for a number does not
+        for a_ in par:
+            kind_ = None
+            for c_, p_ in conds:
+                t_ = c_
+                while isinstance(t_, ast.UnaryOp) and isinstance(t_.op, ast.Not):
+                    t_, p_ = t_.operand, not p_
+                if unparse(t_) == "isinstance(%s, Iterable)" % a_:
+                    kind_ = p_
+                elif unparse(t_) == "isinstance(Iterable, %s)" % a_:
+                    chk.bad("C19.modulo", W("modulo_counter"), "leaf [%s]: %s" % (ctxt[:80], unparse(t_)),
+                            "isinstance with its arguments swapped is a TypeError for every call", node=loop)
+            if kind_ is None:
+                continue
+            chk.decide((a_ in roles) == kind_, "C19.modulo", W("modulo_counter"),
+                       "leaf [%s]: %s is %s and is %s" % (ctxt[:80], a_, "an iterable" if kind_ else "a number",
+                                                          "iterated" if a_ in roles else "used as a number"),
+                       why="each of the eight numbers-vs-streams combinations must reach the loop written for it", node=loop)
         cur = {r: RF.sym("<%s>" % r) for r in par}          # current value of each role
         # pre-loop statements of this leaf's block (assignments before the loop in ctx)
         env = {}
@@ -218,6 +243,34 @@ def run(chk, repo):
                    why="batch length must be the number of steps in one modulo", node=s)
 
     # ------------------------------------------------------ simple generators
+    chk.rule("C19.defaults", "documented parameter names and default values of the generators (the closed forms of the "
+                             "property are stated in terms of them): line(dur, begin=0, end=1, finish=False), ones/zeros"
+                             "(dur=None), white_noise(dur=None, low=-1, high=1), gauss_noise(dur=None, mu=0, sigma=1), "
+                             "impulse(dur=None, one=1, zero=0), sinusoid(freq, phase=0), TableLookup(table, cycles=1), "
+                             "TableLookup.__call__(freq, phase=0), resample(sig, old=1, new=1, order=3, zero=0)")
+    DEFAULTS = [(LS, "line", ["dur", "begin", "end", "finish"], [0.0, 1.0, False]),
+                (LS, "ones", ["dur"], [None]), (LS, "zeros", ["dur"], [None]),
+                (LS, "white_noise", ["dur", "low", "high"], [None, -1.0, 1.0]),
+                (LS, "gauss_noise", ["dur", "mu", "sigma"], [None, 0.0, 1.0]),
+                (LS, "impulse", ["dur", "one", "zero"], [None, 1.0, 0.0]),
+                (LS, "sinusoid", ["freq", "phase"], [0.0]),
+                (LS, "TableLookup.__init__", ["self", "table", "cycles"], [1]),
+                (LS, "TableLookup.__call__", ["self", "freq", "phase"], [0.0]),
+                ("lazy_poly", "resample", ["sig", "old", "new", "order", "zero"], [1, 1, 3, 0.0])]
+    for mn_, q_, names_, dv_ in DEFAULTS:
+        fn_ = repo.find(mn_, q_)
+        got_n = [a.arg for a in fn_.args.args]
+        got_d = []
+        for d in fn_.args.defaults:
+            try:
+                got_d.append(ast.literal_eval(d))
+            except Exception:
+                got_d.append(unparse(d))
+        same = got_n == names_ and len(got_d) == len(dv_) and all(
+            (a is None and b is None) or (a is not None and b is not None and type(a) is not str and a == b
+                                          and isinstance(a, bool) == isinstance(b, bool)) for a, b in zip(got_d, dv_))
+        chk.decide(same, "C19.defaults", "%s:%s" % (repo.mod(mn_).relpath, q_), "%s(%s) defaults %s" % (q_, ", ".join(got_n), got_d),
+                   why="documented: (%s) with defaults %s" % (", ".join(names_), dv_), node=fn_)
     chk.rule("C19.segments", "yield segments (count, value) of line, ones, zeros, impulse, white_noise, gauss_noise, "
                              "adsr, attack equal the documented closed forms in normal form")
     _segments(chk, repo, mod, W)
@@ -430,6 +483,24 @@ def run(chk, repo):
                short(facts.get("idx")), why="first output sits on the first input sample", node=rs)
     whiles = [n for n in ast.walk(rs) if isinstance(n, ast.While) and isinstance(n.test, ast.Constant)]
     chk.require(len(whiles) in (1, 2), "resample: main loop(s) not found")
+    for w_ in whiles:
+        chk.decide(bool(w_.test.value) is True and not w_.orelse, "C19.resample", WP("resample"), "main loop: while %s" % unparse(w_.test),
+                   why="output goes on until the input (or the step stream) ends", node=w_)
+    if len(whiles) == 2:
+        from ..dtable import Facts, walk as _walk
+        trys = [n for n in rb if isinstance(n, ast.Try)]
+        blk = trys[0].body if trys else rb
+        for it_ in (True, False):
+            try:
+                w2 = _walk(blk, Facts(kinds={"step": {"Stream", "Iterable"} if it_ else {"float"}}, types={"Iterable"}),
+                           "resample step dispatch", rebind=lambda n, v, F_: None)
+                loops_ = [st for st in w2.ran if isinstance(st, ast.While)]
+                uses_next = bool(loops_) and "next(step)" in unparse(loops_[0])
+                chk.decide(w2.end != "raise" and len(loops_) == 1 and uses_next == it_, "C19.resample", WP("resample"),
+                           "%s step -> position advanced by %s" % ("stream" if it_ else "number", "next(step)" if uses_next else "step"),
+                           why="a step stream is consumed item by item, a number is added as it is", node=rs)
+            except AnalysisError as ex:
+                chk.defer(str(ex))
     if len(whiles) == 1:
         # one loop for both kinds of step: the step source must be the step stream itself or the constant repeated
         aug = whiles[0].body[1] if len(whiles[0].body) > 1 else None
@@ -565,6 +636,25 @@ def _segments(chk, repo, mod, W):
                 raise AnalysisError("line not interpretable: %s" % ex)
         chk.decide(ok, "C19.segments", W("line"), "finish=%s: %s" % (fin, detail or "shape"),
                    why="line must have int(dur + .5) samples begin + i*(end-begin)/(dur - finish)", node=fn)
+    from ..dtable import Facts, holds, RAISE
+    inf_ = float("inf")
+
+    def endless_guard(cond):
+        """the guard holds exactly for dur None and dur +inf (evaluated, not read): None / message"""
+        for dv in (None, inf_, -inf_, 3.0, 0.2, 0, 7):
+            if dv is None:
+                F = Facts(none=["dur"], raising=["isinf(dur)", "dur > 0", "dur >= 0", "dur < 0", "0 < dur"])
+            else:
+                F = Facts(values={"dur": dv}, kinds={"dur": {"float"}}, truths={"isinf(dur)": dv in (inf_, -inf_),
+                                                                               "math.isinf(dur)": dv in (inf_, -inf_)})
+            r = holds(cond, F)
+            if r is None:
+                raise AnalysisError("duration guard not interpretable: %s" % unparse(cond))
+            want = dv is None or dv == inf_
+            if r is RAISE or bool(r) != want:
+                return "dur=%r takes the %s arm" % (dv, "guard raises" if r is RAISE else ("endless" if r else "finite"))
+        return None
+
     # ones / zeros / noises
     for name, value, cntf in (("ones", "1.0", "int"), ("zeros", "0.0", "int"),
                               ("white_noise", "random.uniform(low, high)", "rint"),
@@ -574,8 +664,14 @@ def _segments(chk, repo, mod, W):
         if ok:
             (c1, s1), (c2, s2) = paths
             endless, finite = (s1, s2) if c1 and c1[0][1] else (s2, s1)
-            cond = unparse((c1 or c2)[0][0])
-            ok = cond == "dur is None or (isinf(dur) and dur > 0)" and len(endless) == 1 and endless[0].kind == "forever" \
+            cpol = (c1 or c2)[0]
+            gtest = cpol[0] if (c1 and c1[0][1]) or (not c1 and c2[0][1]) else ast.UnaryOp(op=ast.Not(), operand=cpol[0])
+            if not ((c1 and c1[0][1]) or (c2 and c2[0][1])):
+                gtest = cpol[0]
+            bad_guard = endless_guard(cpol[0])
+            chk.decide(bad_guard is None, "C19.segments", W(name), "endless exactly for dur None / +inf: " + unparse(cpol[0]),
+                       why=bad_guard or "-", node=fn)
+            ok = len(endless) == 1 and endless[0].kind == "forever" \
                 and unparse(endless[0].value) == value and len(finite) == 1 and finite[0].kind == "range" \
                 and unparse(finite[0].value) == value
             if ok:
@@ -595,6 +691,10 @@ def _segments(chk, repo, mod, W):
         finite = [s for c, s in paths if len(c) == 2 and not c[0][1] and c[1][1]]
         empty = [s for c, s in paths if len(c) == 2 and not c[0][1] and not c[1][1]]
         ok = len(endless) == 1 and len(finite) == 1 and len(empty) == 1 and empty[0] == []
+        g0 = [c for c, s_ in paths if c][0][0][0]
+        bad_guard = endless_guard(g0)
+        chk.decide(bad_guard is None, "C19.segments", W("impulse"), "endless exactly for dur None / +inf: " + unparse(g0),
+                   why=bad_guard or "-", node=fn)
         if ok:
             e, f = endless[0], finite[0]
             ok = [s.kind for s in e] == ["single", "forever"] and unparse(e[0].value) == "one" and unparse(e[1].value) == "zero" \
